@@ -310,11 +310,11 @@ func (e *Effects) Writes(fn *ssa.Function) map[string]string { return e.writes[f
 // --- cells of a closure for fan-out disjointness ---------------------------------
 
 type cell struct {
-	path    string
-	perIter bool // contains an index component that differs per loop iteration
-	write   bool
-	in      ssa.Instruction
-	idxVals []ssa.Value // the values used as indices (per-iteration copies resolved to what was stored in them)
+	path     string
+	perIter  bool // contains an index component that differs per loop iteration
+	write    bool
+	in       ssa.Instruction
+	idxVals  []ssa.Value  // the values used as indices (per-iteration copies resolved to what was stored in them)
 	idxCells []*ssa.Alloc // the variables used as indices
 }
 
@@ -344,12 +344,26 @@ func indexValues(addr ssa.Value) []ssa.Value {
 			if x.Op != token.MUL {
 				return out
 			}
+			if r := unwrapLoad(x); r != ssa.Value(x) && isAddrExpr(r) {
+				v = r // a pointer variable assigned once: continue at what it points to
+				continue
+			}
 			v = x.X
 		default:
 			return out
 		}
 	}
 	return out
+}
+
+// isAddrExpr: v computes an address from another address (so a pointer
+// variable holding it can be replaced by it when naming the cell written).
+func isAddrExpr(v ssa.Value) bool {
+	switch v.(type) {
+	case *ssa.IndexAddr, *ssa.FieldAddr:
+		return true
+	}
+	return false
 }
 
 // cellPath renders an address as root + selectors; index components that are
@@ -373,6 +387,14 @@ func cellPath(addr ssa.Value) (string, []*ssa.Alloc) {
 			return "cell:" + x.Parent().String() + ":" + x.Comment + fmt.Sprintf("@%d", allocOrdinal(x))
 		case *ssa.UnOp:
 			if x.Op == token.MUL {
+				if r := unwrapLoad(x); r != ssa.Value(x) && isAddrExpr(r) {
+					// a captured pointer variable is checked like a captured index
+					// variable: it must be fresh in every iteration
+					if a, ok := resolveCell(x.X).(*ssa.Alloc); ok && a.Parent() != x.Parent() {
+						idxCells = append(idxCells, a)
+					}
+					return rec(r, d+1)
+				}
 				return rec(x.X, d+1) + ".*"
 			}
 		case *ssa.Slice:
